@@ -13,6 +13,8 @@ TEXT = {
  "C05": T("Per destination session and source, (origin index, piece) of writes must be strictly increasing; no duplicate write of a delivery within a run.", "3 C05"),
  "C06": T("Healthy runs with a graceful stop (three ways) at a PRNG-chosen instant; when the stop reports success the drain postconditions are checked exactly; the run must complete within the caps.", "3 C06"),
  "C07": T("Window/threshold/outcome sequences with DLQ write failures; exactly-once DLQ routing, cause fields, no ack after failed DLQ write, reference window model.", "3 C07"),
+ "C09": T("Plugins answer with hostile shapes chosen by the PRNG at every call (processor: more/zero/nil/mixed results, changed or empty positions, degenerate multi-records, nil errors; destination: empty, surplus, reordered, unknown, duplicate acks; source: duplicate/empty positions, empty batches) plus plugin call errors; a worker process killed by a panic with engine frames is replayed and attributed; hangs are detected as simulated-time idleness with all seams served; conditions: stamps show which processors touched which record.", "3 C09",
+          tech="deterministic simulation with hostile-peer fault injection; process-level panic detection + replay; alignment/stamp oracle"),
  "C08": T("Scripted result kinds per record and stage (pass/modify/filter/error/split/short), chains and fan-out; every destination write must be a leaf the scripted chain produces; acks only via C01's rule.", "3 C08"),
 }
 
@@ -21,7 +23,7 @@ NOT_APPLICABLE = [
  {"property_id": "C20", "reason": "pure function of an error tree; no concurrency, time or I/O for a simulator to control (DESIGN.md section 5)"},
 ]
 # properties claimed in DESIGN.md whose checks are not registered yet are listed here until they are
-PENDING = ["C09", "C10", "C11", "C12", "C13", "C14", "C15", "C16", "C17", "C19"]
+PENDING = ["C10", "C11", "C12", "C13", "C14", "C15", "C16", "C17", "C19"]
 import sys, os
 sys.path.insert(0, os.path.dirname(__file__))
 from propdefs import PROPS as _P
